@@ -17,7 +17,7 @@ def fpairs : P (List (Float × Float)) := list (do let a ← float; let b ← fl
 
 def varOf : Nat → Var
   | 0 => .edgeNode | 1 => .faceEdge | 2 => .nPerFace | 3 => .nodeFace | 4 => .edgeFace
-  | 5 => .faceFace | _ => .holes
+  | 5 => .faceFace | 6 => .holes | _ => .edgeFaceDist
 
 def encView (v : View) : String :=
   s!"ok {encPairs v.en} {encRows v.fe} {encNats v.npf} {encRows v.nf} {encPairs v.ef} {encRows v.ff} {encNats v.holes}"
@@ -91,6 +91,16 @@ def handle (cmd : String) (args : List Int) : Option String :=
   | "C09.knn" => do
       let (d, k) ← run (do let d ← floats; let k ← nat; pure (d, k)) args
       pure (encNats (knnSel d k))
+  | "C09.efdtransport" => do
+      -- hypothesis of efd_history_independent on this case's tables (edge_face as the model derives it)
+      let (w, s, idx) ← run (do let w ← nat; let s ← srcP; let idx ← nats; pure (w, s, idx)) args
+      let g : State := { w := w, t := s.t, en := some s.EN, fe := some s.FE }
+      let r := do
+        let g ← getEF g
+        let u ← g.slice idx
+        let u ← getEF u
+        pure (travelEFD true idx (edgeSel s idx) (efdOf (g.ef.getD [])) == efdOf (u.ef.getD []))
+      pure (match r with | some b => encBool b | none => "raises")
   | "C09.view" => do
       -- state machine: source (w, t, optional supplied en/fe) → history → slice (asis?) → requests → view
       let (w, t, sup, en, fe, hist, asis, idx, order) ← run (do
@@ -100,10 +110,14 @@ def handle (cmd : String) (args : List Int) : Option String :=
       let g0 : State := if sup then { w := w, t := t, en := some en, fe := some fe } else { w := w, t := t }
       let r := do
         let g ← runHist g0 (hist.map varOf)
-        -- asis: 0 = repaired, 1 = /repo as it stands, 2 = only fixes/C09-1 applied
-        let u ← g.sliceWith (asis == 1) (asis != 0) idx
-        u.view (order.map varOf)
-      pure (match r with | some v => encView v | none => "raises")
+        -- asis: 0 = repaired, 1 = the original /repo, 2 = fixes/C09-1 only, 3 = C09-1 + C09-2 (no C09-3)
+        let u ← g.sliceWith (asis == 1) (asis == 1 || asis == 2) (asis != 0) idx
+        let v ← u.view (order.map varOf)
+        let e ← u.viewEFD (order.map varOf)
+        pure (v, e)
+      pure (match r with
+        | some (v, e) => encView v ++ " " ++ encPairs (e.map (fun o => o.getD (FILL, FILL)))
+        | none => "raises")
   | _ => none
 
 end UxVerif.Driver.C09
